@@ -199,6 +199,9 @@ func runVdrProperty(c *Ctx, prop string) {
 			stats[k] += v
 		}
 		sp := mk(fmt.Sprint("gen", i), src, mode, c.Seed*1000003+int64(i))
+		if c.Rng.Intn(8) == 0 {
+			sp.LinkedRoot = true
+		}
 		if c.Rng.Intn(6) == 0 { // a chunk fails, mrp is restarted, the chunk is retried
 			sp.FailChunk = true
 		} else if c.Rng.Intn(4) == 0 { // interruption and restart
